@@ -271,7 +271,8 @@ fn cmd_replay(path: &str) -> i32 {
     let kv = Kv::parse(&text);
     let build = kv.get("build").unwrap_or("simdbg").to_string();
     if build == "miri" && !cfg!(miri) {
-        let (code, out) = run_miri(&["replay", path], None);
+        let target = kv.get("miri_target").map(|t| t.to_string());
+        let (code, out) = run_miri_target(target.as_deref(), &["replay", path], None);
         println!("{out}");
         // under Miri any abnormal end (UB report or a model violation) reproduces the finding
         return if code == 0 { 0 } else { 1 };
@@ -338,23 +339,23 @@ fn cmd_replay(path: &str) -> i32 {
 
 /// Runs the simulator under Miri (`cargo +nightly miri run`), returns (exit code, stdout+stderr).
 fn run_miri(args: &[&str], log: Option<&str>) -> (i32, String) {
+    run_miri_target(None, args, log)
+}
+
+/// Foreign targets the interpreter can emulate: a big-endian 64-bit and a little-endian 32-bit one.
+const CROSS_TARGETS: [&str; 2] = ["s390x-unknown-linux-gnu", "i686-unknown-linux-gnu"];
+
+fn run_miri_target(target: Option<&str>, args: &[&str], log: Option<&str>) -> (i32, String) {
     #[allow(non_snake_case)]
     let VD = verif_dir();
     let mut cmd = Command::new("cargo");
     cmd.current_dir(format!("{VD}/sim"))
         .env("CARGO_NET_OFFLINE", "true")
-        .args([
-            "+nightly",
-            "miri",
-            "run",
-            "--offline",
-            "--release",
-            "--quiet",
-            "--target-dir",
-            &format!("{VD}/target/miri"),
-            "--",
-        ])
-        .args(args);
+        .args(["+nightly", "miri", "run", "--offline", "--release", "--quiet"]);
+    if let Some(t) = target {
+        cmd.args(["--target", t]);
+    }
+    cmd.args(["--target-dir", &format!("{VD}/target/miri"), "--"]).args(args);
     match cmd.output() {
         Ok(o) => {
             let mut text = String::from_utf8_lossy(&o.stdout).to_string();
@@ -377,8 +378,8 @@ struct MiriJob {
 struct MiriOutcome {
     runs: u64,
     steps: u64,
-    /// (component, run, description)
-    findings: Vec<(String, u64, String)>,
+    /// (component, run, description, check id of a model violation or "" for a UB report)
+    findings: Vec<(String, u64, String, String)>,
     errors: Vec<String>,
     wall_s: f64,
 }
@@ -386,6 +387,32 @@ struct MiriOutcome {
 /// Memory oracle for C14: the same kinds of histories (plus scanner and parser drives) executed
 /// under Miri in parallel interpreter processes.
 fn run_miri_parts(tier: Tier, seed: u64) -> MiriOutcome {
+    let plan: [(&'static str, u64, u64); 6] =
+        [("C14r", 40, 5), ("C14w", 32, 4), ("C13", 64, 3), ("C14p", 60, 2), ("C14u", 60, 1), ("C01", 12, 1)];
+    run_miri_plan(&plan, None, tier, seed, false)
+}
+
+/// Components of a property that are also executed under Miri for the foreign targets
+/// (component, runs per job, jobs).
+fn cross_plan(property: &str) -> Vec<(&'static str, u64, u64)> {
+    match property {
+        "C01" => vec![("C01", 12, 2)],
+        "C02" => vec![("C02", 40, 1)],
+        "C08" => vec![("C08", 16, 1)],
+        "C11" => vec![("C11", 32, 1)],
+        "C13" => vec![("C13", 40, 2), ("C13t", 6, 1)],
+        "C16" => vec![("C16", 60, 2), ("C16t", 10, 1)],
+        _ => vec![],
+    }
+}
+
+fn run_miri_plan(
+    plan: &[(&'static str, u64, u64)],
+    target: Option<&str>,
+    tier: Tier,
+    seed: u64,
+    model_counts: bool,
+) -> MiriOutcome {
     #[allow(non_snake_case)]
     let VD = verif_dir();
     let start = std::time::Instant::now();
@@ -397,7 +424,8 @@ fn run_miri_parts(tier: Tier, seed: u64) -> MiriOutcome {
         wall_s: 0.0,
     };
     // build once, so that the parallel jobs do not queue up behind the build lock
-    let (code, text) = run_miri(&["miri-noop"], Some(&format!("{VD}/target/parts/miri-build.log")));
+    let tname = target.unwrap_or("host");
+    let (code, text) = run_miri_target(target, &["miri-noop"], Some(&format!("{VD}/target/parts/miri-build-{tname}.log")));
     if code != 0 || !text.contains("MIRI-NOOP") {
         out.errors.push(format!("Miri build/run failed (exit {code}): {}", text.lines().rev().take(8).collect::<Vec<_>>().join(" | ")));
         return out;
@@ -406,10 +434,8 @@ fn run_miri_parts(tier: Tier, seed: u64) -> MiriOutcome {
         Tier::Quick => 1,
         Tier::Thorough => 12,
     };
-    let plan: [(&'static str, u64, u64); 6] =
-        [("C14r", 40, 5), ("C14w", 32, 4), ("C13", 64, 3), ("C14p", 60, 2), ("C14u", 60, 1), ("C01", 12, 1)];
     let mut jobs = vec![];
-    for (comp, per_job, njobs) in plan {
+    for &(comp, per_job, njobs) in plan {
         for j in 0..njobs {
             jobs.push(MiriJob {
                 comp,
@@ -425,8 +451,9 @@ fn run_miri_parts(tier: Tier, seed: u64) -> MiriOutcome {
             .map(|(i, j)| {
                 let vd = VD.clone();
                 sc.spawn(move || {
-                    let log = format!("{vd}/target/parts/miri-{}-{}.log", j.comp, j.lo);
-                    let (code, text) = run_miri(
+                    let log = format!("{vd}/target/parts/miri-{tname}-{}-{}.log", j.comp, j.lo);
+                    let (code, text) = run_miri_target(
+                        target,
                         &[
                             "miri-batch",
                             j.comp,
@@ -455,10 +482,17 @@ fn run_miri_parts(tier: Tier, seed: u64) -> MiriOutcome {
                     out.steps += s.trim().parse::<u64>().unwrap_or(0);
                 }
             } else if let Some(rest) = line.strip_prefix("MIRI-MODEL-VIOLATION ") {
-                // model violations only count for the C14 components themselves
-                if j.comp.starts_with("C14") {
+                // host target: model violations only count for the C14 components themselves (the
+                // others are there for Miri's memory checks); foreign targets: they all count
+                if j.comp.starts_with("C14") || model_counts {
                     let run = rest.split(' ').nth(1).and_then(|r| r.parse().ok()).unwrap_or(0);
-                    out.findings.push((j.comp.to_string(), run, format!("model violation under Miri: {rest}")));
+                    let check = rest
+                        .split("check=")
+                        .nth(1)
+                        .and_then(|c| c.split(' ').next())
+                        .unwrap_or("")
+                        .to_string();
+                    out.findings.push((j.comp.to_string(), run, format!("model violation under Miri: {rest}"), check));
                 }
             }
         }
@@ -480,7 +514,7 @@ fn run_miri_parts(tier: Tier, seed: u64) -> MiriOutcome {
                 .unwrap_or("")
                 .trim()
                 .to_string();
-            out.findings.push((j.comp.to_string(), run, format!("{what} {at}")));
+            out.findings.push((j.comp.to_string(), run, format!("{what} {at}"), String::new()));
         } else {
             out.errors.push(format!(
                 "Miri job {} {}..{} ended abnormally (exit {code}): {}",
@@ -493,6 +527,74 @@ fn run_miri_parts(tier: Tier, seed: u64) -> MiriOutcome {
     }
     out.wall_s = start.elapsed().as_secs_f64();
     out
+}
+
+/// Writes a replay file per Miri finding (the case is regenerated inside the interpreter for the
+/// same target, because generation depends on `cfg!(miri)` and on the width of `usize`), replays
+/// it in a fresh interpreter process and prints the VIOLATION lines.
+fn report_miri_findings(
+    property: &str,
+    target: Option<&str>,
+    findings: Vec<(String, u64, String, String)>,
+    seed: u64,
+    known: &Known,
+    known_hits: &mut u64,
+    violations: &mut u64,
+) -> Result<(), i32> {
+    #[allow(non_snake_case)]
+    let VD = verif_dir();
+    for (comp, run, what, model_check) in findings {
+        let tname = target.map_or("miri".to_string(), |t| format!("miri-{}", t.split('-').next().unwrap_or(t)));
+        let path = format!("{VD}/replays/{comp}-{tname}-{seed}-{run}.replay");
+        let _ = std::fs::create_dir_all(format!("{VD}/replays"));
+        let check = if !model_check.is_empty() {
+            model_check.clone()
+        } else if target.is_none() {
+            "C14.miri".to_string()
+        } else {
+            format!("{property}.miri_ub")
+        };
+        let (code, text) = run_miri_target(
+            target,
+            &["miri-case-print", &comp, &run.to_string(), &seed.to_string(), &check],
+            None,
+        );
+        let body: Option<String> = text
+            .split("-----BEGIN CASE-----\n")
+            .nth(1)
+            .and_then(|t| t.split("-----END CASE-----").next())
+            .map(|t| t.to_string());
+        let Some(mut body) = body.filter(|_| code == 0) else {
+            eprintln!("harness error: cannot regenerate the case of Miri finding {comp} run {run} (exit {code})");
+            return Err(2);
+        };
+        if let Some(t) = target {
+            body.push_str(&format!("miri_target={t}\n"));
+        }
+        if std::fs::write(&path, body).is_err() {
+            eprintln!("harness error: cannot write replay file for Miri finding {comp} run {run}");
+            return Err(2);
+        }
+        let sig_full = format!("check={check} component={comp} {what}");
+        if known.matches(property, &sig_full) {
+            println!("KNOWN-FINDING: property={property} {sig_full}");
+            *known_hits += 1;
+            continue;
+        }
+        // replay under Miri in a fresh process
+        let (code, _text) = run_miri_target(target, &["replay", &path], None);
+        if code == 0 {
+            eprintln!("harness error: Miri finding {comp} run {run} did not reproduce from {path}");
+            return Err(2);
+        }
+        println!(
+            "  violation check={check} build=miri{} component={comp} run={run}: {what}",
+            target.map_or(String::new(), |t| format!(" target={t}"))
+        );
+        println!("VIOLATION property={property} replay={path}");
+        *violations += 1;
+    }
+    Ok(())
 }
 
 struct Part {
@@ -772,32 +874,57 @@ fn cmd_check(property: &str, tier: Tier) -> i32 {
         ]));
         rules.push("[C14m] the C14r/C14w histories plus C13 scanner cases, C14p tiny btor2/cnf/aag/aig/satlog parser drives under small chunks and boundary-targeted cuts, C14u readers fed by a source that reports more bytes than it stored (every exposed byte is touched: initialised?), and C01 parser drives (separate seeded stream, smaller cases) executed under Miri in parallel interpreter processes; any Miri 'Undefined Behavior' report is a violation".to_string());
         real.push("Miri interpreter as memory oracle (out-of-bounds, invalid references, uninitialised reads, aliasing)".to_string());
-        for (comp, run, what) in m.findings {
-            let path = format!("{VD}/replays/{comp}-miri-{seed}-{run}.replay");
-            let _ = std::fs::create_dir_all(format!("{VD}/replays"));
-            let st = Command::new(other_build_exe("simdbg"))
-                .args(["miri-case", &comp, &run.to_string(), &seed.to_string(), &path])
-                .status();
-            if !matches!(st, Ok(s) if s.success()) {
-                eprintln!("harness error: cannot write replay file for Miri finding {comp} run {run}");
-                return 2;
-            }
-            let sig_full = format!("check=C14.miri component={comp} {what}");
-            if known.matches(property, &sig_full) {
-                println!("KNOWN-FINDING: property={property} {sig_full}");
-                known_hits += 1;
+        if let Err(code) = report_miri_findings(property, None, m.findings, seed, &known, &mut known_hits, &mut violations) {
+            return code;
+        }
+    }
+
+    // the property's own components once more under Miri, emulating a big-endian 64-bit and a
+    // little-endian 32-bit target (the properties are stated for the library, not for x86_64)
+    let cplan = cross_plan(property);
+    if !cplan.is_empty() && std::env::var_os("VERIF_NO_MIRI").is_none() {
+        for target in CROSS_TARGETS {
+            let m = run_miri_plan(&cplan, Some(target), tier, seed, true);
+            if !m.errors.is_empty() {
+                // an interpreter or sysroot that is not available is not a verdict about flussab
+                // and must not break the native check: say so, count it, carry on
+                for e in &m.errors {
+                    eprintln!("  note: Miri for target {target} unavailable or failed, cross-target part skipped: {e}");
+                }
+                comp_json.push(Json::obj(vec![
+                    ("component", Json::s(format!("{property}x on {target}: SKIPPED (interpreter/sysroot unavailable)"))),
+                    ("build", Json::s("miri")),
+                    ("runs", Json::U(0)),
+                    ("distinct_nontrivial", Json::U(0)),
+                    ("wall_s", Json::F(m.wall_s)),
+                ]));
                 continue;
             }
-            // replay under Miri in a fresh process
-            let (code, _text) = run_miri(&["replay", &path], None);
-            if code == 0 {
-                eprintln!("harness error: Miri finding {comp} run {run} did not reproduce from {path}");
-                return 2;
+            println!(
+                "  component={property}x build=miri target={target} runs={} wall_s={:.1}",
+                m.runs, m.wall_s
+            );
+            evaluations += m.runs;
+            steps += m.steps;
+            comp_json.push(Json::obj(vec![
+                (
+                    "component",
+                    Json::s(format!(
+                        "{property}x ({} under Miri for target {target})",
+                        cplan.iter().map(|c| c.0).collect::<Vec<_>>().join(" + ")
+                    )),
+                ),
+                ("build", Json::s("miri")),
+                ("runs", Json::U(m.runs)),
+                ("distinct_nontrivial", Json::U(0)),
+                ("wall_s", Json::F(m.wall_s)),
+            ]));
+            if let Err(code) = report_miri_findings(property, Some(target), m.findings, seed, &known, &mut known_hits, &mut violations) {
+                return code;
             }
-            println!("  violation check=C14.miri build=miri component={comp} run={run}: {what}");
-            println!("VIOLATION property={property} replay={path}");
-            violations += 1;
         }
+        rules.push(format!("[{property}x] the same components (smaller cases, separate seeded stream) executed by the Miri interpreter for the foreign targets {} (big-endian 64-bit, little-endian 32-bit): model violations and Miri 'Undefined Behavior' reports are violations", CROSS_TARGETS.join(", ")));
+        real.push("Miri interpreter emulating s390x (big-endian) and i686 (32-bit usize)".to_string());
     }
 
     let wall = start.elapsed().as_secs_f64();
@@ -941,6 +1068,27 @@ fn case_file<P: Prop>(
         eprintln!("cannot write {path}");
         exit(2);
     }
+}
+
+fn case_text<P: Prop>(p: &P, run: u64, seed: u64, tag: &str, check: &'static str, build: &str, signature: &str) -> String {
+    let mut rng = rng::Rng::new(rng::mix(seed, tag, run));
+    let case = p.gen(&mut rng, Tier::Quick);
+    let v = framework::Violation {
+        check,
+        signature: signature.to_string(),
+        detail: String::new(),
+    };
+    let mut kv = replay_kv(p, seed, run, &case, &v, 0);
+    for e in kv.0.iter_mut() {
+        if e.0 == "build" {
+            e.1 = build.to_string();
+        }
+    }
+    let mut text = format!("# flussab-sim replay file\n{}", kv.render());
+    if !text.ends_with('\n') {
+        text.push('\n');
+    }
+    text
 }
 
 /// A simulated run that never returns cannot satisfy any of the properties (each of them is stated
@@ -1093,6 +1241,20 @@ fn main() {
             let seed: u64 = args[5].parse().unwrap_or(DEFAULT_SEED);
             let comp = args[2].clone();
             dispatch!(comp.as_str(), p => miri_batch(p, lo, hi, seed));
+            0
+        }
+        Some("miri-case-print") if args.len() >= 6 => {
+            // regenerate the case of a Miri run (inside the interpreter, for the same target) and
+            // print it as a replay file
+            let run: u64 = args[3].parse().unwrap_or(0);
+            let seed: u64 = args[4].parse().unwrap_or(DEFAULT_SEED);
+            let comp = args[2].clone();
+            let check: &'static str = Box::leak(args[5].clone().into_boxed_str());
+            dispatch!(comp.as_str(), p => {
+                let tag = miri_tag(p.id());
+                let text = case_text(p, run, seed, &tag, check, "miri", &format!("Miri run of component {} fails", p.id()));
+                println!("-----BEGIN CASE-----\n{text}-----END CASE-----");
+            });
             0
         }
         Some("miri-case") if args.len() >= 6 => {
